@@ -81,7 +81,7 @@ def check(P, rep):
             if v in ('DomainSeparator', 'PreviousSignerRetention', 'MinimumRotationDelay'):
                 nw += 1
                 rep.check(en == '__constructor' and e.kind == 'sw', 'C01.R5', '%s:%s-writer' % (en, v), '%s is constructor-only' % v, esite(g, e), e.describe()[:160])
-    rep.floor('auth-state writers', nw, 11)
+    rep.floor('auth-state writers', nw, 9)
     # exactly one proof validator: every ed25519_verify site found is inside a graph checked above
     nver = 0
     for cn, en in P.all_entries():
